@@ -2683,7 +2683,20 @@ func (c *Ctx) saslEncodingRule(rule string) {
 			}
 			n++
 			okAll, why := true, ""
+			var origins []ssa.Value
 			for _, o := range c.Origins(cs.Common().Args[1]) {
+				// an encoding method of a client-package record (the stored initial response): what it returns
+				if mc, isMC := o.(*ssa.Call); isMC && !mc.Call.IsInvoke() && mc.Call.StaticCallee() != nil && mc.Call.StaticCallee() != authFn && c.InModuleFn(mc.Call.StaticCallee()) && mc.Call.StaticCallee().Package() == c.Client && mc.Call.StaticCallee().Blocks != nil {
+					funcInstrs(mc.Call.StaticCallee(), func(y ssa.Instruction) {
+						if rt, isR := y.(*ssa.Return); isR && len(rt.Results) == 1 {
+							origins = append(origins, c.originsLocal(retVal(rt, 0))...)
+						}
+					})
+					continue
+				}
+				origins = append(origins, o)
+			}
+			for _, o := range origins {
 				if k, isK := constString(o); isK && k == "+" {
 					why += "\"+\" "
 					continue
